@@ -14,6 +14,8 @@
 (*              hand / seat / led  -> out                                  *)
 (*   choose   : o, hand -> out   (RandomPlay.play on the object's state)   *)
 (*   agree    : all objects of the trace hold the same public state        *)
+(*   peek     : done, taken as seen by another thread in the middle of a   *)
+(*              play (harness/race.py)                                     *)
 (*   trick    : trump, decl, cards (4)  -> projected state of a fresh      *)
 (*              plain object after the four plays (winner table)           *)
 (* play / setdummy / new log res and the projected state AFTER the call    *)
@@ -133,6 +135,12 @@ Consume ==
                              <<"MODEL-LAW", exp = P!AvailableCards(SetOf(e.hand), e.led)>> >>)
         IN IF c = "" THEN Good(cur)
            ELSE Bad(e, "avail:o=static:fail=" \o c)
+     ELSE IF e.ev = "peek" THEN
+        \* a look at the object from another thread while a card is being
+        \* played: whenever play is over the two sides' counts total thirteen
+        LET c == AllFails(<< <<"over-implies-thirteen", e.done => e.taken[1] + e.taken[2] = 13>>,
+                             <<"counts-never-exceed-tricks", e.taken[1] + e.taken[2] <= 13>> >>)
+        IN IF c = "" THEN Good(cur) ELSE Bad(e, "peek:o=plain:fail=" \o c)
      ELSE IF e.ev = "agree" THEN
         LET live == {o \in 0..5 : ~IsNone(cur[o])}
             c == AllFails(<< <<"replicas-agree",
